@@ -33,9 +33,16 @@ res = {'id': sid, 'property': pid, 'ran_at_repo_head': sh(['git', '-C', '/repo',
 rc, out = sh(['git', '-C', '/repo', 'worktree', 'add', '--detach', wt, 'HEAD'])
 try:
     rc, out = sh(['git', '-C', wt, 'apply', os.path.join(src, 'patch.diff')])
+    if rc != 0:
+        # /repo moved on since the patch was written: let patch(1) place the hunks by context
+        sh(['git', '-C', wt, 'checkout', '--', '.'])
+        rc, out2 = sh(['patch', '-p1', '--no-backup-if-mismatch', '-i', os.path.join(src, 'patch.diff')], cwd=wt)
+        out += out2
+        res['applied_with'] = 'patch -p1 (offsets/fuzz)'
     res['applies'] = rc == 0
     if rc != 0:
         res['apply_error'] = out[-400:]
+        print(json.dumps(res, indent=1))
         raise SystemExit
     rc, out = sh([os.path.join(V, 'tools/baseline.py'), wt])
     for _ in range(3):
